@@ -31,7 +31,8 @@ META = {
              'range index at the head / middle / tail / end.'
              " Round 12: GIfTI point sets stored as INT32 / UINT8 (coordinates of several metres)."
              " Round 18: link-mesh-fragments run again with a corrected table."
-             " Round 19: vertex attributes as list / tuple / generator / iterator."),
+             " Round 19: vertex attributes as list / tuple / generator / iterator."
+             " Round 21: VTK export of arrays in other memory layouts and of the arrays affine_transform_mesh returns."),
     "trusted_base": ["vlib/refs/mesh_spec.py (struct-based, from the format "
                      "text)", "vlib/refs/vtk_grammar.py (from memory of "
                      "neuroglancer's vtk/parse.ts)", "nibabel GIFTI writer"],
@@ -615,7 +616,14 @@ def vtk_cases(draw):
             "title": draw(st.one_of(st.just(""), st.text(
                 alphabet="abc xyz,.-#", max_size=300))),
             "vdtype": draw(st.sampled_from(["float32", "float64"])),
-            "tdtype": draw(st.sampled_from(["uint32", "int64", "uint8"]))}
+            "tdtype": draw(st.sampled_from(["uint32", "int64", "uint8"])),
+            # memory layout of vertices / triangles / attribute tables, or
+            # the arrays as affine_transform_mesh returns them (one mesh
+            # tool applied to the output of another)
+            "layout": draw(st.one_of(
+                st.none(), st.just("transformed"),
+                st.tuples(st.sampled_from(ds.LAYOUTS),
+                          st.sampled_from(ds.LAYOUTS)).map(list)))}
 
 
 def check_vtk(ctx, case):
@@ -631,6 +639,19 @@ def check_vtk(ctx, case):
         if a["flat"]:
             vals = vals[:, 0]
         attrs.append({"name": a["name"], "values": vals})
+    lay = case.get("layout")
+    if lay == "transformed":
+        v, t = M.affine_transform_mesh(v, t, np.eye(4))
+        if not np.array_equal(np.asarray(v), np.array(
+                case["mesh"]["vertices"], dtype=case["vdtype"]).reshape(
+                    -1, 3)):
+            ctx.fail("the identity transform moved the vertices")
+    elif lay:
+        v = ds.laid_out(v, lay[0]) if len(v) else v
+        t = ds.laid_out(t, lay[1]) if len(t) else t
+        for a_ in attrs:
+            if len(v):
+                a_["values"] = ds.laid_out(a_["values"], lay[0])
     sio = io.StringIO()
     try:
         # "an iterable": a list, a tuple, a generator, an iterator over
@@ -671,8 +692,11 @@ def check_vtk(ctx, case):
 def run_vtk(ctx, n):
     def check(ctx, case):
         check_vtk(ctx, case)
+        lay = case.get("layout")
         ctx.record(case, len(case["mesh"]["triangles"]) >= 2,
-                   ["attrs%d" % len(case["attrs"])])
+                   ["attrs%d" % len(case["attrs"]),
+                    "layout." + ("given" if not lay else lay if isinstance(
+                        lay, str) else lay[0])])
     ctx.run_hypothesis(vtk_cases(), check, n)
 
 
